@@ -18,6 +18,7 @@ import (
 
 	"github.com/cloudwego/dynamicgo/conv"
 	"github.com/cloudwego/dynamicgo/conv/j2t"
+	"github.com/cloudwego/dynamicgo/conv/j2tportable"
 	"github.com/cloudwego/dynamicgo/internal/caching"
 	"github.com/cloudwego/dynamicgo/meta"
 	"github.com/cloudwego/dynamicgo/thrift"
@@ -118,8 +119,18 @@ func newC02gen(r *rng) *c02gen {
 			var anns []string
 			if r.chance(30) {
 				a := fmt.Sprintf("%s%d", c02AliasAlphabet[r.intn(len(c02AliasAlphabet))], n)
+				wild := r.chance(50)
+				if wild { // bytes below '.' and above 'z' at any position (native trie buckets / hash)
+					const alpha = " !#$%&'()*+,-{|}~./09AZaz_"
+					b := make([]byte, 1+r.intn(6))
+					for i := range b {
+						b[i] = alpha[r.intn(len(alpha))]
+					}
+					pos := r.intn(len(b) + 1)
+					a = string(b[:pos]) + strconv.Itoa(n) + string(b[pos:]) // the counter keeps the keys of one IDL distinct
+				}
 				c.alias[f] = a
-				if r.bool() {
+				if r.bool() || wild {
 					anns = append(anns, fmt.Sprintf("api.key = \"%s\"", a))
 				} else {
 					anns = append(anns, fmt.Sprintf("go.tag = 'json:\"%s\"'", a))
@@ -995,6 +1006,8 @@ func countNodes(v *Val) int {
 
 // ---- running the implementation ---------------------------------------------------------------
 
+var c02PortN int
+
 var c02Held, c02HeldCopy []byte // the latest non-empty result of Do, as returned / as copied at that moment
 
 type c02res struct {
@@ -1122,6 +1135,33 @@ func c02Run(r *rng, cv *j2t.BinaryConv, desc *thrift.TypeDescriptor, doc []byte,
 	return res
 }
 
+// check 211: the portable converter (conv/j2tportable = conv/j2t/impl_fallback.go) on the same document, judged by the
+// algorithm-level model J2TWalk.j2t_walk
+func c02EmitPortable(bits int, doc []byte, desc *thrift.TypeDescriptor, dfs []string) {
+	c02PortN++
+	if len(doc) > 6000 && c02PortN%4 != 0 { // the walk model costs as much as the spec model: large documents are sampled
+		return
+	}
+	opts := conv.Options{DisallowUnknownField: bits&1 != 0, String2Int64: bits&2 != 0, NoBase64Binary: bits&4 != 0, EnableValueMapping: bits&8 != 0,
+		WriteDefaultField: bits&16 != 0, WriteRequireField: bits&32 != 0, WriteOptionalField: bits&64 != 0}
+	cv := j2tportable.NewBinaryConv(opts)
+	var o []byte
+	var e error
+	ec := 0
+	if ok, msg := noPanic(func() { o, e = cv.Do(context.Background(), desc, doc) }); !ok {
+		ec = c02PanicClass(msg)
+		o = nil
+	} else {
+		ec = c02ErrClass(e)
+	}
+	if ec != 0 {
+		o = nil
+	}
+	f := append([]string(nil), dfs...)
+	f = append(f, fi(bits), fx(doc), fi(ec), fx(o))
+	out.emit(211, f...)
+}
+
 func (c *c02gen) emit(optBits int, oob int, doc []byte, res []c02res, desc []string) {
 	f := append([]string(nil), desc...)
 	f = append(f, fi(optBits), fi(oob), fx(doc), fi(len(res)))
@@ -1143,6 +1183,9 @@ func genC02(r *rng, n int) {
 	}
 	for k := 0; k < 2+n/300; k++ {
 		docs += genC02Special(r, 6)
+	}
+	for k := 0; k < 4+n/100; k++ {
+		docs += genC02Special(r, 7)
 	}
 	for k := 0; k < 1+n/700; k++ {
 		docs += genC02Special(r, 0)
@@ -1215,6 +1258,7 @@ func genC02(r *rng, n int) {
 			}
 			res := c02Run(r, &cv, desc, doc, true)
 			c.emit(optBits, c.oobLookups(p.skeys), doc, res, dfs)
+			c02EmitPortable(optBits, doc, desc, dfs)
 			docs++
 			if stream >= 78 && stream < 88 && len(doc) > 0 { // truncations of the same document
 				cuts := []int{0, 1, len(doc) - 1, len(doc) / 2}
@@ -1230,6 +1274,7 @@ func genC02(r *rng, n int) {
 					last = cut
 					d2 := append([]byte(nil), doc[:cut]...)
 					c.emit(optBits, c.oobLookups(p.skeys), d2, c02Run(r, &cv, desc, d2, false), dfs)
+					c02EmitPortable(optBits, d2, desc, dfs)
 					docs++
 				}
 			}
